@@ -46,19 +46,19 @@ func (c20Writer) WriteStreamOpenErr(peerID identity.AgentID, streamID uint64, re
 func (c20Writer) WriteStreamClose(peerID identity.AgentID, streamID uint64) error { return nil }
 
 func harnessC20Open() {
-	// 0..2 endpoints with symbolic keys (1..2 bytes) and targets (2 bytes)
+	// 0..c20Endpoints endpoints with symbolic keys (1..c20KeyMax bytes) and targets (2 bytes)
 	var cfg HandlerConfig
-	n := verif_choose(3)
-	var keys, targets [2]string
+	n := verif_choose(c20Endpoints + 1)
+	var keys, targets [c20Endpoints]string
 	for i := 0; i < n; i++ {
-		keys[i] = verif_nondet_string(1 + verif_choose(2))
+		keys[i] = verif_nondet_string(1 + verif_choose(c20KeyMax))
 		targets[i] = verif_nondet_string(2)
 		cfg.Endpoints = append(cfg.Endpoints, Endpoint{Key: keys[i], Target: targets[i]})
 	}
 	h := NewHandler(cfg, identity.AgentID{1}, c20Writer{})
 	h.Start()
 	// requested key: shorter, equal-length and longer than configured keys, any bytes
-	req := verif_nondet_string(verif_choose(4))
+	req := verif_nondet_string(verif_choose(c20ReqMax + 1))
 	var key [crypto.KeySize]byte
 	key[0] = 9
 	c20Dialed, c20Errs = 0, 0
